@@ -428,11 +428,13 @@ func (s *simscreen) SetSize(w, h int) {
 			newc[(row*w)+col] = s.front[(row*s.physw)+col]
 		}
 	}
-	s.cursorx, s.cursory = -1, -1
 	changed := w != s.physw || h != s.physh
 	s.physw, s.physh = w, h
 	s.front = newc
 	s.back.Resize(w, h)
+	// the position the application asked for stands; whether it is
+	// visible depends on the new size
+	s.showCursor()
 	s.Unlock()
 	if changed {
 		// resizing the logical buffer here keeps Show from noticing the
